@@ -60,8 +60,7 @@ def sel_case(draw, tier):
     if contains:
         cell = st.one_of(st.lists(st.sampled_from(p), max_size=3), st.sampled_from(["", "xay", "b"]), st.lists(st.sampled_from(p), max_size=2).map(tuple))
     tbl = draw(gen.table(hdr, [cell] * nf, max_rows=7 if tier == "quick" else 14, ragged=not contains and draw(st.booleans())))
-    c = {"blowup": draw(scale.blowup(wide=False)),
-         "selector": sel, "table": tbl, "field": draw(st.one_of(st.sampled_from(hdr), st.integers(0, nf - 1))),
+    c = {"selector": sel, "table": tbl, "field": draw(st.one_of(st.sampled_from(hdr), st.integers(0, nf - 1))),
          # container form of the input; "records": the data rows are petl Record objects (as records() or an upstream
          # selectusingcontext / convert(where=) delivers them), built with the default missing=None
          "form": draw(st.sampled_from(["lists", "lists", "lists", "records", "records"] + catgen.FORMS)),
@@ -88,6 +87,7 @@ def sel_case(draw, tier):
         c["missing"] = draw(st.sampled_from([None, "M", None, "M", 0, "", False]))
     if contains:
         c["value"] = draw(st.sampled_from(p + ["x", "a"]))
+    c["blowup"] = scale.derive(c, wide=False)
     return c
 
 
@@ -232,10 +232,15 @@ def part_case(draw, tier):
         ragged, rkw = True, {"ragged_odds": 2, "ragged_min": nf}
     tbl = draw(gen.table(hdr, [cell] * nf, max_rows=7 if tier == "quick" else 14, ragged=ragged,
                          extra=st.sampled_from(["a", "xa", "7", "x", None, "A"]), **rkw))   # surplus cells the patterns can match
-    return {"blowup": draw(scale.blowup(wide=False)), "manykeys": draw(st.booleans()),
+    return _scaled({"manykeys": draw(st.booleans()),
             "kind": kind, "table": tbl, "field": draw(st.sampled_from(hdr)), "pattern": draw(st.sampled_from(PATTERNS)),
             "fields": draw(st.permutations(hdr))[:2],
-            "n": draw(st.integers(0, nf + 1)), "flags": draw(st.sampled_from([0, re.I]))}
+            "n": draw(st.integers(0, nf + 1)), "flags": draw(st.sampled_from([0, re.I]))})
+
+
+def _scaled(c):
+    c["blowup"] = scale.derive(c, wide=False)
+    return c
 
 
 def _is_partition(rows, a, b):
